@@ -66,6 +66,15 @@ METHOD_CONTRACTS = {"copy": "fresh", "__copy__": "fresh", "__deepcopy__": "fresh
                     "process_samples": "scalar", "process_state": "scalar", "process_counts": "scalar", "process_density_matrix": "scalar"}
 
 
+def star(tokens):
+    """tokens of the state REACHABLE from values with the given tokens"""
+    return frozenset(t if t.endswith("*") else t + "*" for t in tokens)
+
+
+def param_index(tok):
+    return int(tok.rstrip("*")[1:])
+
+
 @dataclass(frozen=True)
 class AV:
     ids: frozenset = frozenset()
@@ -74,6 +83,7 @@ class AV:
     unknown: bool = False          # the IDENTITY of the value is unclassifiable (result of a callee without contract that got input state)
     kind: str = "?"
     eunknown: bool = False         # its ELEMENTS may be unclassifiable values
+    items: tuple = None            # tuple / list display of known length: abstract value per position (for `a, b = f(x)`)
 
     @property
     def tokens(self):
@@ -82,15 +92,37 @@ class AV:
     def join(self, other):
         if other is None:
             return self
+        items = None
+        if self.items is not None and other.items is not None and len(self.items) == len(other.items):
+            items = tuple(a.join(b) for a, b in zip(self.items, other.items))
         return AV(self.ids | other.ids, self.elems | other.elems, self.fresh and other.fresh, self.unknown or other.unknown,
-                  self.kind if self.kind == other.kind else "?", self.eunknown or other.eunknown)
+                  self.kind if self.kind == other.kind else "?", self.eunknown or other.eunknown, items)
 
-    def element(self):
+    def element(self, pos=None):
         """a value drawn from this one (indexing, iteration, unpacking, attribute of unknown meaning)"""
+        if pos is not None and self.items is not None and 0 <= pos < len(self.items):
+            return self.items[pos]
+        if self.items is not None and pos is None and self.items:
+            out = None
+            for it in self.items:
+                out = it.join(out)
+            return out
         if not self.tokens:
             return AV(unknown=self.unknown or self.eunknown, eunknown=self.unknown or self.eunknown)
         u = self.unknown or self.eunknown
-        return AV(self.tokens, self.tokens, False, u, "?", u)
+        # elements of a NEW container are what was put into it (elems); elements of a pre-existing object are state reachable from it
+        toks = self.elems | star(self.ids)
+        return AV(toks, star(toks), False, u, "?", u)
+
+    def reachable(self):
+        """state reachable from this value, excluding the value itself"""
+        u = self.unknown or self.eunknown
+        toks = self.elems | star(self.ids)
+        return AV(toks, star(toks), False, u, "?", u)
+
+    def hits(self, k):
+        """tokens of parameter k among the possible identities"""
+        return {t for t in self.ids if param_index(t) == k}
 
 
 OTHER = AV(kind="scalar")
@@ -98,7 +130,7 @@ OTHER = AV(kind="scalar")
 
 def fresh_of(*vals, kind="?"):
     """a NEW object whose elements / parts may be the given values"""
-    toks = frozenset().union(*[v.tokens for v in vals]) if vals else frozenset()
+    toks = frozenset().union(*[v.ids | v.elems for v in vals]) if vals else frozenset()
     return AV(frozenset(), toks, True, False, kind, any(v.unknown or v.eunknown for v in vals))
 
 
@@ -123,20 +155,23 @@ class WriteSite:
     func: str          # qualname of the function the site is in (nested functions included)
 
     def verdict(self, token):
-        """'violation' | 'unclassified' | 'ok' for the frame contract on parameter `token`"""
+        """'violation' | 'unclassified' | 'ok' for the frame contract `nothing reachable from parameter <token> is modified`"""
         v = self.value
-        if token not in v.tokens:
+        k = param_index(token)
+        if not any(param_index(t) == k for t in v.tokens):
             return "ok"
+        hit = bool(v.hits(k))
         if self.kind == "augassign-name" and v.kind != "list":
-            return "unclassified" if (v.kind == "?" and (token in v.ids or v.unknown)) else "ok"
+            return "unclassified" if (v.kind == "?" and (hit or v.unknown)) else "ok"
         if v.unknown:
             return "unclassified"
-        return "violation" if token in v.ids else "ok"
+        return "violation" if hit else "ok"
 
 
 @dataclass
 class Summary:
-    mutates: set = field(default_factory=set)        # parameter indices whose reachable state the function may write
+    mutates: set = field(default_factory=set)        # parameter indices: the function may write the argument object ITSELF (list.pop on it, ...)
+    mutates_reach: set = field(default_factory=set)  # ... may write state reachable from it (its internal lists, its elements)
     unclassified: set = field(default_factory=set)   # ... may write through an unclassifiable value
     returns: AV = OTHER                               # in terms of tokens "P<k>"
     sites: list = field(default_factory=list)
@@ -265,24 +300,26 @@ class Analyzer:
         env = {}
         params = [p.arg for p in a.posonlyargs + a.args]
         for k, p in enumerate(params):
-            env[p] = AV(frozenset({f"P{k}"}), frozenset({f"P{k}"}), False, False, "?")
+            env[p] = AV(frozenset({f"P{k}"}), frozenset({f"P{k}*"}), False, False, "?")
         extra = len(params)
         if a.vararg:
-            env[a.vararg.arg] = AV(frozenset(), frozenset({f"P{extra}"}), True, False, "list")
+            env[a.vararg.arg] = AV(frozenset(), frozenset({f"P{extra}", f"P{extra}*"}), True, False, "list")
             extra += 1
         for p in a.kwonlyargs:
-            env[p.arg] = AV(frozenset({f"P{extra}"}), frozenset({f"P{extra}"}), False, False, "?")
+            env[p.arg] = AV(frozenset({f"P{extra}"}), frozenset({f"P{extra}*"}), False, False, "?")
             extra += 1
         if a.kwarg:
-            env[a.kwarg.arg] = AV(frozenset(), frozenset({f"P{extra}"}), True, False, "?")
+            env[a.kwarg.arg] = AV(frozenset(), frozenset({f"P{extra}", f"P{extra}*"}), True, False, "?")
         self.block(self.fn.body, env)
         s = Summary(returns=self.returns or OTHER, sites=self.sites, assumed=self.assumed, unsupported=self.unsupported)
         for st in self.sites:
-            for tok in st.value.tokens:
-                v = st.verdict(tok)
-                k = int(tok[1:])
+            for k in {param_index(t) for t in st.value.tokens}:
+                v = st.verdict(f"P{k}")
                 if v == "violation":
-                    s.mutates.add(k)
+                    if f"P{k}" in st.value.ids:
+                        s.mutates.add(k)
+                    if f"P{k}*" in st.value.ids:
+                        s.mutates_reach.add(k)
                 elif v == "unclassified":
                     s.unclassified.add(k)
         return s
@@ -367,9 +404,12 @@ class Analyzer:
         if isinstance(t, ast.Name):
             env[t.id] = v
         elif isinstance(t, (ast.Tuple, ast.List)):
-            item = v.element()
-            for e in t.elts:
-                self.bind(e.value if isinstance(e, ast.Starred) else e, fresh_of(v, kind="list") if isinstance(e, ast.Starred) else item, env, node)
+            starred = any(isinstance(e, ast.Starred) for e in t.elts)
+            for pos, e in enumerate(t.elts):
+                if isinstance(e, ast.Starred):
+                    self.bind(e.value, AV(frozenset(), v.element().ids, True, False, "list", v.unknown or v.eunknown), env, node)
+                else:
+                    self.bind(e, v.element(None if starred else pos), env, node)
         elif isinstance(t, ast.Subscript):
             self.write(node, "setitem", t.value, self.ev(t.value, env))
             self.ev(t.slice, env)
@@ -513,7 +553,10 @@ class Analyzer:
         return self._display(n.elts, env, "list")
 
     def e_Tuple(self, n, env):
-        return self._display(n.elts, env, "?")
+        v = self._display(n.elts, env, "?")
+        if not any(isinstance(e, ast.Starred) for e in n.elts):
+            return AV(v.ids, v.elems, v.fresh, v.unknown, v.kind, v.eunknown, tuple(self.ev(e, env) for e in n.elts))
+        return v
 
     def e_Set(self, n, env):
         return self._display(n.elts, env, "list")
@@ -585,7 +628,9 @@ class Analyzer:
         v = self.ev(n.value, env)
         self.ev(n.slice, env)
         if isinstance(n.slice, ast.Slice):
-            return AV(frozenset(), v.tokens, True, False, v.kind, v.unknown or v.eunknown)          # x[a:b]: a new sequence of the same elements
+            return AV(frozenset(), v.element().ids, True, False, v.kind, v.unknown or v.eunknown)          # x[a:b]: a new sequence of the same elements
+        if isinstance(n.slice, ast.Constant) and isinstance(n.slice.value, int):
+            return v.element(n.slice.value)
         return v.element()
 
     def e_Attribute(self, n, env):
@@ -597,12 +642,10 @@ class Analyzer:
             return OTHER
         c = ATTR_CONTRACTS.get(n.attr)
         u = v.unknown or v.eunknown
+        r = v.reachable()
         if c == "fresh":
-            return AV(frozenset(), v.tokens, True, False, kind, u)
-        if v.fresh and not v.unknown and c is None:
-            # attribute of a NEW object (a copied operator, a new tape): one of the parts it was built from
-            return AV(v.elems, v.elems, False, v.eunknown, kind, v.eunknown)
-        return AV(v.tokens, v.tokens, False, u, kind, u)
+            return AV(frozenset(), r.ids, True, False, kind, u)
+        return AV(r.ids, r.elems, False, r.unknown, kind, r.eunknown)
 
     # ------------------------------------------------------------------ calls
     def e_Call(self, n, env):
@@ -752,34 +795,50 @@ class Analyzer:
             if kw in names:
                 node = next(k.value for k in n.keywords if k.arg == kw)
                 bound[names.index(kw)] = (node, v)
-        for k in sorted(summ.mutates | summ.unclassified):
-            if k in bound and bound[k][1].tokens:
-                node, v = bound[k]
-                # the callee writes state REACHABLE from its k-th parameter: the argument itself or something drawn from it
-                reachable = AV(v.tokens, v.tokens, False, v.unknown or v.eunknown, v.kind, v.eunknown)
-                if k in summ.mutates:
-                    self.write(n, f"call-mutates-arg:{fn.name}#{k}", node, reachable)
-                else:
-                    self.write(n, f"call-may-mutate-arg:{fn.name}#{k}", node, AV(frozenset(), v.tokens, False, True, v.kind, True))
-        r = summ.returns
-
-        def subst(tokens):
-            out = frozenset()
-            for t in tokens:
-                k = int(t[1:])
-                if k in bound:
-                    out |= bound[k][1].tokens
-            return out
-        ids = frozenset()
-        for t in r.ids:          # the result may BE parameter k: it may then be whatever the argument may be
-            k = int(t[1:])
-            if k in bound:
-                ids |= bound[k][1].ids | (bound[k][1].elems if not bound[k][1].fresh else frozenset())
+        for k in sorted(summ.mutates | summ.mutates_reach | summ.unclassified):
+            if k not in bound or not bound[k][1].tokens:
+                continue
+            node, v = bound[k]
+            if k in summ.mutates:          # the callee writes the argument object itself
+                self.write(n, f"call-mutates-arg:{fn.name}#{k}", node, v)
+            if k in summ.mutates_reach:    # the callee writes state reachable from the argument (an internal list, an element)
+                self.write(n, f"call-mutates-reachable:{fn.name}#{k}", node, v.reachable())
+            if k in summ.unclassified and k not in summ.mutates and k not in summ.mutates_reach:
+                self.write(n, f"call-may-mutate-arg:{fn.name}#{k}", node, AV(frozenset(), v.tokens, False, True, v.kind, True))
         tainted_args = any(v.tokens for v in allv)
-        from_args = [bound[int(t[1:])][1] for t in r.tokens if int(t[1:]) in bound]
-        unk = (r.unknown and tainted_args) or any(b.unknown for b in [bound[int(t[1:])][1] for t in r.ids if int(t[1:]) in bound])
-        eunk = (r.eunknown and tainted_args) or any(b.unknown or b.eunknown for b in from_args)
-        return AV(ids, subst(r.elems) | subst(r.ids), r.fresh and not ids, unk, r.kind, eunk or unk)
+
+        def inst(r):
+            """the callee's abstract value (over its parameter tokens) in terms of the caller's values"""
+            out = AV(frozenset(), frozenset(), r.fresh, r.unknown and tainted_args, r.kind, r.eunknown and tainted_args,
+                     None if r.items is None else tuple(inst(x) for x in r.items))
+            ids, elems = frozenset(), frozenset()
+            unk, eunk = out.unknown, out.eunknown
+            fresh = r.fresh
+
+            def arg_for(t):
+                k = param_index(t)
+                return bound[k][1] if k in bound else None
+            for t in r.ids:
+                a_ = arg_for(t)
+                if a_ is None:
+                    continue
+                src = a_ if not t.endswith("*") else a_.reachable()
+                ids |= src.ids
+                elems |= src.elems
+                unk = unk or src.unknown
+                eunk = eunk or src.eunknown
+                fresh = fresh and False if src.ids or not src.fresh else fresh and src.fresh
+                if not t.endswith("*") and len(r.ids) == 1 and not r.elems - star(r.ids) and out.items is None and a_.items is not None:
+                    out = AV(out.ids, out.elems, out.fresh, out.unknown, out.kind, out.eunknown, a_.items)
+            for t in r.elems:
+                a_ = arg_for(t)
+                if a_ is None:
+                    continue
+                src = a_ if not t.endswith("*") else a_.reachable()
+                elems |= src.ids | src.elems
+                eunk = eunk or src.unknown or src.eunknown
+            return AV(ids, elems, (r.fresh or fresh) and not ids, unk, r.kind, eunk, out.items)
+        return inst(summ.returns)
 
 
 def analyse_function(repo, rel, qualname, summaries=None):
